@@ -111,7 +111,7 @@ def run(res, tier, seed):
     res.rule = RULE
     res.assumptions = ['ORDER BY keys of one type (Python raises TypeError otherwise)', 'DISTINCT rows hashable (no list-valued cells)']
     rnd = random.Random(seed * 2750159 + 2)
-    cases = gen_cases(rnd, 7000 if tier == 'quick' else 150000)
+    cases = gen_cases(rnd, 14000 if tier == 'quick' else 150000)
     large = gen_large_cases(random.Random(seed * 31 + 77), 8 if tier == 'quick' else 80)
     res.count('large_tables(>1000 records beyond the bound)', len(large))
     cases = large + cases
